@@ -181,7 +181,7 @@ def outcome_class(e, stream):
 
 
 class CallResult:
-    __slots__ = ("ok", "value", "err", "exc", "entropy", "args_changed", "elapsed", "index")
+    __slots__ = ("ok", "value", "err", "exc", "entropy", "args_changed", "elapsed", "index", "state")
 
 
 def call_impl(fn, args, stream="plain", replay_entropy=None, kwargs=None):
